@@ -6,7 +6,13 @@
         level = line:depth:args:guard:cvars:files   (bottom of the stack first)
      -> panic <site> | outoffuel
    sep <ev>...              ev = W<hex> | L<hex> | S | F
-     -> ok <state> <hex out> <hex line> <disciplined> | panic <site> <disciplined> *)
+     -> ok <state> <hex out> <hex line> <disciplined> | panic <site> <disciplined>
+   scope <names> <op>...    names = hex.hex...   op = D:<hexname>:<id>:<kind>:<op>:<hexvalue>
+                                                     | F:<hexname>:<hexvalue> | U:<hexname>:<id>:<0|1>
+     -> <step>|<step>...   step = obs;obs... (one per name)
+        obs = mentioned,defined,definedSimilar,used,usedSimilar,atLoad,first,last,commented,firstUse,<hex value>,found,indet
+   resolve <hasExpr 0|1> <ops of mklines.allVars | -> <ops of pkg.vars | -> <hex text>     ops = op+op+...
+     -> ok <hex result> passes=<n> fuel=<n> budget=<n> | panic <site> | outoffuel *)
 let ints_of (s : string) : int list =
   if s = "" then [] else List.map int_of_string (String.split_on_char '.' s)
 let cvar_of (i : int) : cvar = { v_id = n_of_int (i / 2); v_mk = (i land 1 = 1) }
@@ -43,6 +49,24 @@ let sep_event (s : string) : sw_event =
   | 'S' -> ESeparate
   | 'F' -> EFlush
   | _ -> failwith "bad event"
+let sop_of (s : string) : sop =
+  match String.split_on_char ':' s with
+  | ["D"; n; id; k; o; v] ->
+    ODefine (bytes_of_hex n, { sl_id = n_of_int (int_of_string id); sl_kind = n_of_int (int_of_string k);
+                               sl_op = n_of_int (int_of_string o); sl_value = bytes_of_hex v })
+  | ["F"; n; v] -> OFallback (bytes_of_hex n, bytes_of_hex v)
+  | ["U"; n; id; b] ->
+    OUse (bytes_of_hex n, { sl_id = n_of_int (int_of_string id); sl_kind = n_of_int 2; sl_op = N0; sl_value = [] }, b = "1")
+  | _ -> failwith "bad scope op"
+let sops_of (s : string) : sop list =
+  if s = "-" then [] else List.map sop_of (String.split_on_char '+' s)
+let lid (o : sline option) : string = match o with None -> "0" | Some l -> string_of_int (int_of_n l.sl_id)
+let b01 (b : bool) : string = if b then "1" else "0"
+let sobs_str (o : sobs) : string =
+  let ((v, found), indet) = o.ob_lvf in
+  String.concat "," [lid o.ob_mentioned; b01 o.ob_defined; b01 o.ob_defined_similar; b01 o.ob_used; b01 o.ob_used_similar;
+                     b01 o.ob_load; lid o.ob_first; lid o.ob_last; lid o.ob_commented; lid o.ob_first_use;
+                     hex_of_bytes v; b01 found; b01 indet]
 let handle (args : string list) : string =
   match args with
   | "indent" :: pk :: ls ->
@@ -56,6 +80,19 @@ let handle (args : string list) : string =
     (match sw_run evs with
      | Ok w -> Printf.sprintf "ok %d %s %s %s" (int_of_n w.sw_state) (hex_of_bytes w.sw_out) (hex_of_bytes w.sw_line) d
      | Panic s -> "panic " ^ string_of_int (int_of_n s) ^ " " ^ d
+     | OutOfFuel -> "outoffuel")
+  | "scope" :: names :: ops ->
+    let names = List.map bytes_of_hex (String.split_on_char '.' names) in
+    let tr = scope_trace [] (List.map sop_of ops) names in
+    String.concat "|" (List.map (fun step -> String.concat ";" (List.map sobs_str step)) tr)
+  | ["resolve"; he; allops; pkgops; text] ->
+    let sc = scope_bindings (scope_run (sops_of allops)) @ scope_bindings (scope_run (sops_of pkgops)) in
+    let text = bytes_of_hex text in
+    (match resolve_exprs (he = "1") sc text with
+     | Ok r -> Printf.sprintf "ok %s passes=%d fuel=%d budget=%d" (hex_of_bytes r)
+                 (if he = "1" then int_of_nat (resolve_passes (resolve_fuel sc) sc [] text) else 0)
+                 (int_of_nat (resolve_fuel sc)) (int_of_nat (value_budget sc))
+     | Panic s -> "panic " ^ string_of_int (int_of_n s)
      | OutOfFuel -> "outoffuel")
   | _ -> "ERR:bad request"
 let () = serve handle
